@@ -101,9 +101,9 @@ func scripts(thorough bool) []string {
 	if !thorough {
 		return genScripts(3, 1, "FsL") // 56
 	}
-	out := genScripts(3, 2, "FsL")                // 128
-	out = append(out, genScripts(4, 1, "FsL")...) // 160
-	out = append(out, genScripts(5, 1, "FL")...)  // 288
+	out := genScripts(3, 2, "FsL")               // 128
+	out = append(out, genScripts(4, 1, "FL")...) // 112
+	out = append(out, genScripts(5, 0, "")...)   // 32
 	return out
 }
 
@@ -307,8 +307,7 @@ func representative(picks []string, thorough bool) bool {
 	if !thorough {
 		return in(cfg, "", "retries1") && in(script, "", "0F11", "1s01", "11L1") && in(kind, "", "M", "MBf", "Kf")
 	}
-	return in(cfg, "", "onebatch", "linger5", "retries1", "timeout5", "stoploss") &&
-		in(script, "", "0F11", "1s01", "11L1", "111", "0F1s1", "1F11", "0s11", "01F11", "1111")
+	return in(cfg, "", "onebatch", "linger5", "retries1") && in(script, "", "0F11", "1s01", "11L1", "111", "0s11")
 }
 
 // GenPlans returns the generated family: quick = every (cfg, place, script of
